@@ -29,10 +29,10 @@ import (
 )
 
 type job struct {
-	ad       adapter
-	sh       shape
-	allPairs bool
-	fam      string
+	ad   adapter
+	sh   shape
+	mode int
+	fam  string
 }
 
 func main() {
@@ -66,10 +66,14 @@ func main() {
 	arrow := config.GetEth4345Height(config.NETWORK_ID_MAIN_NET)
 	D := new(big.Int).Lsh(big.NewInt(1), 52)
 	var jobs []job
+	treeMode := pairsRelated // quick: batches of two restricted to related headers; thorough: every ordered pair
+	if r.Thorough() {
+		treeMode = pairsAll
+	}
 	addTrees := func(ad adapter, fam string, nmin, nmax, colours int) {
 		for n := nmin; n <= nmax; n++ {
 			for _, sh := range enumShapes(n, colours) {
-				jobs = append(jobs, job{ad, sh, true, fmt.Sprintf("%s/n=%d/c=%d", fam, n, colours)})
+				jobs = append(jobs, job{ad, sh, treeMode, fmt.Sprintf("%s/n=%d/c=%d", fam, n, colours)})
 			}
 		}
 	}
@@ -93,7 +97,7 @@ func main() {
 		for p := 0; p <= 1; p++ {
 			for ca := 0; ca < 4; ca++ {
 				for cb := 0; cb < 4; cb++ {
-					jobs = append(jobs, job{era, forkPair(p, la, lb, 0, ca, cb), false, "eth-forkpair/" + era.era})
+					jobs = append(jobs, job{era, forkPair(p, la, lb, 0, ca, cb), frontierOnly, "eth-forkpair/" + era.era})
 				}
 			}
 		}
@@ -110,7 +114,7 @@ func main() {
 	addTrees(&btcAd{btcSim, bits2}, "btc-tree/simnet", 1, nEra, 2)
 	for ca := 0; ca < 3; ca++ {
 		for cb := 0; cb < 3; cb++ {
-			jobs = append(jobs, job{&btcAd{btcReg, bits3}, forkPair(1, r.QT(4, 6), r.QT(5, 7), 0, ca, cb), false, "btc-forkpair/regtest"})
+			jobs = append(jobs, job{&btcAd{btcReg, bits3}, forkPair(1, r.QT(4, 6), r.QT(5, 7), 0, ca, cb), frontierOnly, "btc-forkpair/regtest"})
 		}
 	}
 
@@ -141,7 +145,7 @@ func main() {
 				if err != nil {
 					r.HarnessError("build %s: %v", j.sh, err)
 				}
-				st := explore(r, env, j.ad, sim, base, in, j.allPairs, j.fam)
+				st := explore(r, env, j.ad, sim, base, in, j.mode, j.fam)
 				r.Case(j.fam + "/" + canon(j.sh, 0))
 				r.Sample(map[string]any{"family": j.fam, "tree": j.sh.String(), "states": st.states, "transitions": st.trans})
 				mu.Lock()
